@@ -66,6 +66,10 @@ fn oracle_value(out: &mut Out, v: &Value, case: &str) {
     if v.is_u64() != v.as_u64().is_some() { bad.push("is_u64 vs as_u64"); }
     if v.as_f64().is_some() != v.is_number() { bad.push("as_f64 is Some exactly for numbers"); }
     if v.is_f64() && (v.as_i64().is_some() || v.as_u64().is_some()) { bad.push("a float is reported as an integer"); }
+    // an integer within the range of the other signedness is seen through it too
+    if let Some(i) = v.as_i64() { if i >= 0 && v.as_u64() != Some(i as u64) { bad.push("a non-negative integer is not returned by as_u64"); } }
+    if let Some(u) = v.as_u64() { if u <= i64::MAX as u64 && v.as_i64() != Some(u as i64) { bad.push("an integer within i64 is not returned by as_i64"); } }
+    if let Some(i) = v.as_i64() { if v.as_f64() != Some(i as f64) { bad.push("as_f64 of an integer is not the nearest double"); } }
     let name_kinds = v.is_string() || v.is_symbol() || v.is_keyword();
     if v.as_name().is_some() != name_kinds { bad.push("as_name is Some exactly for strings, symbols and keywords"); }
     for b in bad {
@@ -212,9 +216,59 @@ pub fn gen_prim(r: &mut Rng) -> Prim {
     }
 }
 
+/// Values that come out of the reader are values too: integer literals in every
+/// spelling (sign, leading zeros, radix prefix) against the value built from the
+/// same mathematical integer by conversion.
+fn reader_values(out: &mut Out, r: &mut Rng, n: usize) {
+    let mags: Vec<u64> = vec![0, 1, 2, 7, 127, 128, 255, 256, 32767, 32768, 65535, 65536, 2147483647, 2147483648, 4294967295, 4294967296,
+        i64::MAX as u64 - 1, i64::MAX as u64, i64::MAX as u64 + 1, u64::MAX - 1, u64::MAX];
+    for k in 0..n {
+        let m = if k < mags.len() * 12 { mags[k % mags.len()] } else { boundary_u(r, 64) };
+        let sign = ["", "+", "-"][(k / mags.len()) % 3];
+        let zeros = ["", "0", "000"][r.below(3) as usize];
+        let (prefix, digits) = match (k / (mags.len() * 3)) % 4 { 0 => ("", format!("{}", m)), 1 => ("#x", format!("{:x}", m)), 2 => ("#b", format!("{:b}", m)), _ => ("#o", format!("{:o}", m)) };
+        let lit = format!("{}{}{}{}", prefix, sign, zeros, digits);
+        let texts = [lit.clone(), format!("({} . #({}))", lit, lit)];
+        // the value the literal denotes, built by conversion
+        let want: Option<Value> = if sign == "-" {
+            if m <= i64::MAX as u64 + 1 { Some(Value::from((m as i128).wrapping_neg() as i64)) } else { None }
+        } else { Some(Value::from(m)) };
+        for (ti, text) in texts.iter().enumerate() {
+            out.oracle_checks += 1;
+            out.count("reader-literal");
+            let case = format!("parse {}", hex(text.as_bytes()));
+            let parsed = match lexpr::from_str(text) { Ok(v) => v, Err(e) => { out.fail("reader-value", format!("integer literal rejected: {}", e), case, json!({"text": text})); continue; } };
+            let leaves: Vec<Value> = if ti == 0 { vec![parsed] } else {
+                match parsed.as_cons() { Some(c) => vec![c.car().clone(), c.cdr().as_slice().map(|s| s[0].clone()).unwrap_or(Value::Null)], None => vec![parsed] }
+            };
+            for v in leaves {
+                oracle_value(out, &v, &case);
+                if let Some(w) = &want {
+                    if acc(&v) != acc(w) || v != *w || *w != v {
+                        out.fail("reader-value", format!("the value read from {} differs from the value converted from the same integer", text), case.clone(), json!({"read": acc(&v), "converted": acc(w)}));
+                    }
+                    // comparisons with primitives of every width, both operand orders
+                    let mut prims = vec![Prim::U64(m), Prim::I64(m as i64), Prim::U8(m as u8), Prim::U16(m as u16), Prim::U32(m as u32), Prim::I8(m as i8), Prim::I32(m as i32), Prim::F64(m as f64)];
+                    if sign == "-" { prims.push(Prim::I64((m as i128).wrapping_neg() as i64)); prims.push(Prim::I16((m as i128).wrapping_neg() as i16)); }
+                    for p in prims {
+                        let mut t = v.clone();
+                        let res = p.cmp(&mut t);
+                        let wantc = p.via_accessor(w);
+                        out.oracle_checks += 1;
+                        if res.iter().any(|b| *b != wantc) {
+                            out.fail("reader-value", format!("comparing the value read from {} with {} gives {:?}, the converted value gives {}", text, p.code(), res, wantc), case.clone(), json!({}));
+                        }
+                    }
+                }
+            }
+        }
+    }
+}
+
 pub fn run(tier: &str, seed: u64, out: &mut Out) {
     let mut r = Rng::new(seed);
     let n = match tier { "thorough" => 400_000, "search" => 60_000, _ => 6_000 };
+    reader_values(out, &mut r, match tier { "thorough" => 20_000, "search" => 4_000, _ => 600 });
     let cfg = GenCfg { max_depth: 2, max_len: 3, names: NameMode::Any, floats: FloatMode::All, nil_bool: true };
     let mut pool: Vec<Value> = vec![];
     for _ in 0..n {
